@@ -385,7 +385,7 @@ _RENAMES = [
     ("FE-table-numbering", lambda l: re.sub(r"\bFE\d+_", "FE#_", l)),
     ("temp-symbol-counter", lambda l: re.sub(r"\b(fw|temp_|sv_[0-9a-f]+_|sp_[0-9a-f]+_|sp_|sv_)\d+\b", r"\1#", l)),
     ("coefficient-symbol-numbering", lambda l: re.sub(r"\bw\d+(_|\b)", r"w#\1", l)),
-    ("rule-id", lambda l: re.sub(r"(_Q|weights_|points_|sv_|sp_)[0-9a-f]{3}\b", r"\1###", l)),
+    ("rule-id", lambda l: re.sub(r"(_Q|weights_|points_|sv_|sp_)[0-9a-f]{3,8}(?![0-9a-f])", r"\1###", l)),
     ("signature-hash-in-names", lambda l: re.sub(r"\b[0-9a-f]{40}\b", "<sha1>", l)),
 ]
 
@@ -598,8 +598,19 @@ def plan(tier, seed):
     return names, jobs
 
 
+def _tree_digest():
+    """SHA-256 over the sources the workers import (the tree must not change while the differential runs)."""
+    from harness.framework import REPO
+    h = hashlib.sha256()
+    for f in sorted((REPO / "ffcx").rglob("*.py")):
+        h.update(str(f).encode())
+        h.update(f.read_bytes())
+    return h.hexdigest()
+
+
 def differential(chk, tier, seed, only=None):
     scratch = Path(tempfile.mkdtemp(prefix=SCRATCH_PREFIX))
+    tree0 = _tree_digest()
     try:
         (scratch / "cwd").mkdir()
         (scratch / "xdg").mkdir()
@@ -618,6 +629,9 @@ def differential(chk, tier, seed, only=None):
             results = list(ex.map(lambda js: _run_job(js[0], js[1], scratch), jobs))
         chk.notes["differential_wall_s"] = round(time.time() - t0, 1)
         chk.notes["subprocesses"] = len(jobs)
+        if _tree_digest() != tree0:
+            raise RuntimeError("the working tree of /repo/ffcx changed while the subprocess differential was running: "
+                               "runs before and after the change are not comparable (infrastructure, rerun the check)")
         crashed = [r for r in results if r.get("crash")]
         if crashed:
             raise RuntimeError(f"{len(crashed)} worker process(es) died before reporting, after 3 attempts "
